@@ -6,7 +6,7 @@ import ast
 from fractions import Fraction
 from typing import Optional
 
-from ..core.repo import (AnalysisError, Repo, call_name, calls_in, definitions, dotted, is_const,
+from ..core.repo import (AnalysisError, Repo, call_name, calls_in, definitions, dotted, func_params, is_const,
                          kwarg, names_in, unparse, walk_no_nested_defs)
 from ..domains.algnf import NotArithmetic, Poly, Rat, from_ast
 
